@@ -111,4 +111,16 @@ PROPS = {
         "assumptions": ["known finding F-C04-partition-barrier-undersized: timing checks are not applied to drop-partition cases in which AddPartition ran before the streams were registered (counted)",
                         "a pack in flight while the collection is stopped may raise an error event; that is not a drop request"],
     },
+    "C12": {
+        "pkg": "hstore", "test": "TestC12_(Etcd|MySQL)", "level": "exploration",
+        "quick": T(8, 0, tests=[{"test": "TestC12_Etcd", "checks": 120}, {"test": "TestC12_MySQL", "checks": 1500}], timeout=900),
+        "thorough": T(8, 0, tests=[{"test": "TestC12_Etcd", "checks": 4000}, {"test": "TestC12_MySQL", "checks": 60000}], timeout=7000),
+        "rule": "both backends behind api.MetaStoreFactory (real EtcdMetaStore on an embedded etcd server; real MySQL store SQL on an in-memory engine with MySQL LIKE/upsert/transaction semantics); 2..3 factories with root paths "
+                "from {cdc, cdc2, cdc_, cd%, cdc/sub}; task ids {t, t1, t10, t_, t%}, collection ids {1, 10, 100, -1, -10}, channels {c, c1}; rapid histories of 1..14 operations: put/get/list task, UpdateTaskState, "
+                "UpdateTaskCollectionPosition (one channel, optional op/target position), UpdateDropStateTaskCollectionPosition, get/delete positions, DeleteTask with a failure injected at the k-th store call (incl. commit), "
+                "replicate-store put / prefix get / remove. After EVERY operation the full dump of the backend (etcd range read / all SQL rows) must equal a map model keyed (root, kind, task, collection). "
+                "non-trivial = history touches two ids or roots in prefix/pattern relation and has >= 3 operations; distinct = distinct (backend, roots, history)",
+        "assumptions": ["SQL engine compares strings byte-wise; identifiers differing only in case or trailing blanks are not generated (collation of a real server is out of scope)",
+                        "identifiers containing '/' are not generated for task ids / channels (outside the stated domain)"],
+    },
 }
